@@ -18,7 +18,14 @@ def mk_ranking(raw):
     return ck.Ranking([set(b) for b in raw])
 
 
-FORM_COUNTS = {"datasets": 0, "datasets_from_other_forms": 0}
+FORM_COUNTS = {"datasets": 0, "datasets_from_other_forms": 0, "datasets_given_weights": 0}
+
+
+def dataset_subclass():
+    """a user-defined sub-class of Dataset that adds nothing (class methods such as from_raw_list return it)"""
+    class LabelledDataset(ck.Dataset):
+        pass
+    return LabelledDataset
 
 
 def mk_dataset(raw, name=None):
@@ -31,6 +38,11 @@ def mk_dataset(raw, name=None):
     if crc % 12 == 0:
         FORM_COUNTS["datasets_from_other_forms"] += 1
         d = mk_dataset_forms(raw, [FORMS[(crc >> (3 * i + 4)) % len(FORMS)] for i in range(len(raw))])
+    elif crc % 12 == 1:
+        # the constructor's optional `weights` argument (one float per ranking; the properties are stated for the rankings as
+        # they are, and the unchanged constructor ignores it): non-uniform weights
+        FORM_COUNTS["datasets_given_weights"] += 1
+        d = ck.Dataset([mk_ranking(r) for r in raw], weights=[float(1 + ((crc >> (2 * i + 5)) % 4) * (i % 2 + 1)) for i in range(len(raw))])
     else:
         d = ck.Dataset([mk_ranking(r) for r in raw])
     if name is not None:
